@@ -9,6 +9,8 @@ use serde_json::{Value, json};
 pub mod boundary;
 #[path = "typeerrors.rs"]
 pub mod typeerrors;
+#[path = "escapes.rs"]
+pub mod escapes;
 
 #[derive(Clone, Debug)]
 pub struct CaseFile {
@@ -792,6 +794,8 @@ pub fn generate(p: &mut Prng, seeds: &Seeds) -> Case {
         }
         16 => Case::single("nested<=64", nested(p)),
         17 => Case::single("seed (unchanged)", p.pick(&seeds.programs[..]).clone()),
+        // error spans computed by offset arithmetic over decoded pieces (brace escapes x escape errors x non-ASCII)
+        19 => escapes::random_case(p),
         _ => module_tree(p, seeds),
     }
 }
